@@ -37,6 +37,8 @@ SCHEMA = {
     'AlignerEngine': {'maxDistance': REAL, 'iteration': INT},
     'SequentialityScorer': {'segmentJoinMultiplier': REAL, 'sequentialityScore': INT},
     'SegmentChainer': {'sequentialityScorer': OBJ('SequentialityScorer')},
+    '_SegmentPair': {'leftSegment': SEG, 'rightSegment': SEG},
+    '_SegmentPairWithConflict': {'leftConflictingSubsegment': SEG, 'rightConflictingSubsegment': SEG},
     '_ConflictingSegmentCharacteristics': {'positions': LIST(PWS), 'scores': LIST(REAL), 'indexes': LIST(INT)},
     'PeaksSelector': {'count': INT},
     'BionanoAlignment': {'alignmentId': INT, 'queryId': INT, 'referenceId': INT, 'queryStartPosition': INT, 'queryEndPosition': INT,
